@@ -46,6 +46,12 @@ def gen_group(r, agg):
       vals = r.sample(['a', 'b', 'c', 'd', 'aa', 'ab', 'B', 'z', '', '10', '9', 'zz', 'y'], min(n, 13))
     args = [r.choice([0, 1, 2, 'x', 'y', 'p%d' % i, i]) for i in range(len(vals))]
     rows = [[a, v] for a, v in zip(args, vals)]
+    if rows and r.random() < 0.25:
+      # predicates are multisets: the very same (arg, value) row may arrive several times.
+      # Identical rows tie only with each other, so the defined value stays order-independent.
+      for _ in range(r.choice([1, 1, 2, 3])):
+        rows.append(list(r.choice(rows)))
+      n = len(rows)
     limit = r.choice([None, None, 1, 1, 2, 3, max(1, n - 1), max(1, n), n + 1, n + 5])
     return {'agg': agg, 'rows': rows, 'limit': limit}
   if agg == 'DistinctListAgg':
@@ -196,6 +202,10 @@ def gen_table(r, vtype='int'):
     k = r.choice([0, 0, 1, 2])
     a = 'a%d' % i if r.random() < 0.8 else r.choice(['x', 'y'])
     rows.append([k, a, vs_[i], r.choice([0, 1, 1, 2, 3])])
+  if r.random() < 0.25:
+    # duplicate rows (a table is a multiset); copies tie only with themselves
+    for _ in range(r.choice([1, 1, 2])):
+      rows.append(list(r.choice(rows)))
   return rows
 
 
@@ -311,6 +321,46 @@ def lit(x):
   return str(x)
 
 
+def rand_arith(r, depth, ints, var=None):
+  """A random arithmetic expression tree over small ints: + - * unary minus, Least/Greatest,
+  ToInt64(ToString()), optionally a variable. Returns (text, value, precedence) with
+  precedence 3 = atom, 2 = product, 1 = sum/difference, 0 = unary minus. Parentheses are
+  dropped only where the documented precedence (* over + -, left to right) makes them
+  redundant; a unary minus is always followed by a literal, a variable or a parenthesis
+  (`-F(x)` is a call of a predicate named "-F" to the parser, not a negation; calls have
+  precedence 2.9 here so that they are parenthesised under a unary minus)."""
+  if depth <= 0 or r.random() < 0.2:
+    if var is not None and r.random() < 0.4:
+      return var[0], var[1], 3
+    a = r.choice(ints)
+    return lit(a), a, 3
+  k = r.choice(['+', '-', '*', '-', 'neg', 'neg', 'call', 'paren'])
+  if k == 'neg':
+    t, v, p_ = rand_arith(r, depth - 1, ints, var)
+    return '-' + (t if p_ == 3 and r.random() < 0.5 else '(%s)' % t), -v, 0
+  if k == 'paren':
+    t, v, _ = rand_arith(r, depth - 1, ints, var)
+    return '(%s)' % t, v, 3
+  if k == 'call':
+    f = r.choice(['Least', 'Greatest', 'ToInt64'])
+    if f == 'ToInt64':
+      t, v, _ = rand_arith(r, depth - 1, ints, var)
+      return 'ToInt64(ToString(%s))' % t, v, 2.9
+    args = [rand_arith(r, depth - 1, ints, var) for _ in range(r.choice([2, 2, 3]))]
+    vals = [x[1] for x in args]
+    return '%s(%s)' % (f, ', '.join(x[0] for x in args)), (min(vals) if f == 'Least' else max(vals)), 2.9
+  lt, lv, lp = rand_arith(r, depth - 1, ints, var)
+  rt, rv, rp = rand_arith(r, depth - 1, ints, var)
+  mine = 2 if k == '*' else 1
+  # left operand: a unary minus may lead a sum or a product; lower precedence needs parentheses
+  if (lp < mine and lp != 0) or r.random() < 0.25:
+    lt = '(%s)' % lt
+  if rp <= mine or r.random() < 0.25:
+    rt = '(%s)' % rt
+  v = lv + rv if k == '+' else lv - rv if k == '-' else lv * rv
+  return '%s %s %s' % (lt, k, rt), v, mine
+
+
 def gen_scalars(r, n):
   """Cells (name, Logica expression, defined value) of the scalar built-ins; small domains
   including the empty list and zero. Only cells whose meaning the documentation fixes."""
@@ -361,6 +411,15 @@ def gen_scalars(r, n):
         cells.append(['Element', ('Where', 'Element(Sort(s), 0)', 's Set= (%s)' % body), min(sums)])
       else:
         cells.append(['Element', ('Where', 'Element(Sort(s), %d)' % (len(sums) - 1), 's List= (%s)' % body), max(sums)])
+    elif f == 'Nested' and r.random() < 0.6:
+      # random expression trees (fixed forms are a blind spot: seeded change C20k)
+      if r.random() < 0.4:
+        xv = r.choice(ints)
+        t, v, _ = rand_arith(r, r.choice([1, 2, 3]), ints, var=('x', xv))
+        cells.append(['Nested', ('Where', t, 'x == %s' % lit(xv)), v])
+      else:
+        t, v, _ = rand_arith(r, r.choice([1, 2, 3]), ints)
+        cells.append(['Nested', t, v])
     elif f == 'Nested':
       a, b, c = r.choice(ints), r.choice(ints), r.choice(ints)
       form, val = r.choice([
